@@ -957,6 +957,7 @@ pub fn check_scenarios(property: &str, cfg: &CheckCfg, parts: Vec<Box<dyn PartRu
             "scheduling_policies": total.policy_runs,
             "runs_aborted_by_a_verdict_or_cap": total.aborted_runs,
             "determinism_rechecked_runs": determinism_checked,
+            "worker_threads": cfg.workers,
             "violation_key_hits": total.violation_hits,
             "incidental_hits_of_other_properties_oracles": total.incidental,
             "known_findings_hit": known_hit.iter().map(|(k, (_, n))| (k.clone(), *n)).collect::<BTreeMap<_, _>>(),
